@@ -112,6 +112,9 @@ type issue struct {
 func imageCheck(st *memory.Database, m *model, okNew map[uint64]bool) []issue {
 	var out []issue
 	mv := readMeta(st, nSlots)
+	if is := metaFormatIssue(st); is != nil {
+		out = append(out, *is)
+	}
 	if uint64(mv.Current)>>nSlots != 0 {
 		out = append(out, issue{"applied-bit-for-unknown-migration", fmt.Sprintf("current=%b", uint64(mv.Current))})
 	}
